@@ -12,6 +12,16 @@
 4. projection (not TLC): the scaling / permutation / batch laws on float-valued realistic batches, all
    columns including slopes.
 5. binding self-tests: corrupted records / a corrupted expected value must be flagged.
+
+Forms of the call (FORMS below): the property quantifies over waveform batches, not over one way of handing them
+over.  Besides the base execution (float64, C-contiguous, 3-D, keyword defaults) every group of waveforms is passed
+again as float32 / int16 / int32 / int64, Fortran-ordered, as an axes-swapped view of an (n, trace, time) array,
+as an every-other-element view of a larger array, with return_peak_channel=True, with another (fs, duration)
+pair for the same offset, with values x 2**-20 (volts instead of counts), a second time as the same array
+object, in a batch of the *same shape* right after the base call with the rows rotated (state that survives
+between calls), and as 2-D single waveforms.  Each of these is a <<"batch", form, row, exc>> law entry of the
+record: the existing clause BatchP (the features of a waveform do not depend on the batch it came in) and, when
+the copy raised, nothing else judges them.
 """
 import copy
 import itertools
@@ -33,6 +43,15 @@ COLS = {"ptr": "peak_trace_idx", "pk": "peak_time_idx", "pkv": "peak_val", "tr":
         "rec": "recovery_time_idx", "recv": "recovery_val"}
 IDX = {"ptr", "pk", "tr", "tip", "hpost", "hpre", "rec"}
 TRACE = ("trace/FeaturesTrace.tla", "trace/FeaturesTrace.cfg")
+# other forms of the same batch (second element of a "batch" law entry; 0 = re-batched, float64 C-contiguous)
+FORMS = {1: "float32 input", 2: "int16 input", 3: "int32 input", 4: "int64 input", 5: "Fortran-ordered input",
+         6: "axes-swapped view of an (n, trace, time) array", 7: "every-other-element view of a larger array",
+         8: "return_peak_channel=True", 9: "fs=2500.0 with the duration of the same offset",
+         10: "values x 2**-20", 11: "second call on the same array object",
+         12: "batch of the same shape right after the base call, rows rotated", 13: "2-D array of one waveform"}
+INT_FORMS = {2: np.int16, 3: np.int32, 4: np.int64}
+FORM_COUNT = {}
+UNBOUND = []        # step functions of ibldsp.waveforms the recorder could not find (see Recorder)
 
 
 def _iv(x):
@@ -71,6 +90,14 @@ class Recorder:
         self.d = None
 
     def __enter__(self):
+        missing = [n for n in self.STEPS if not callable(getattr(self.wf, n, None))]
+        if missing:
+            # the pipeline is no longer made of these four module-level functions (renamed / merged / inlined):
+            # nothing to wrap; run_one_batch rebuilds the step records from the public return values
+            if not UNBOUND:
+                UNBOUND.extend(missing)
+            self.orig = {}
+            return self
         self.orig = {n: getattr(self.wf, n) for n in self.STEPS}
         rec = self
 
@@ -114,24 +141,90 @@ def to_float(m):
     return a
 
 
-def call(arr, d):
-    """compute_spike_features on a copy (the function overwrites NaN in its argument); d samples offset.
-    d = None: the default arguments (fs = 30000, 0.16 ms -> 5 samples)"""
+def as_form(arr, form):
+    """the argument handed to compute_spike_features: always a fresh array (the function overwrites NaN in its
+    argument), in the requested form"""
+    a = np.array(arr, dtype=float)
+    if form == 1:
+        a = a.astype(np.float32)
+    elif form in INT_FORMS:
+        a = a.astype(INT_FORMS[form])            # callers pass NaN-free integer counts within int16 only
+    elif form == 5:
+        a = np.asfortranarray(a)
+    elif form == 6:
+        a = np.swapaxes(np.ascontiguousarray(np.swapaxes(a, -1, -2)), -1, -2)
+    elif form == 7:
+        fill = 3.0 * float(np.max(np.abs(np.nan_to_num(a)), initial=0.0)) + 7.0     # would be the extremum if it were read
+        big = np.full(a.shape[:-2] + (2 * a.shape[-2] + 1, 2 * a.shape[-1] + 1), fill)
+        big[..., 1::2, 1::2] = a
+        a = big[..., 1::2, 1::2]
+    elif form == 10:
+        a = a * 2.0 ** -20                       # exact: the values are integers below 2**53 / 2**20
+    return a
+
+
+def form_kwargs(d, form):
+    """keyword arguments of the call for `d` samples offset.  d = None: the default arguments (fs = 30000,
+    0.16 ms -> 5 samples)"""
+    kw = {} if d is None else {"fs": 1000, "recovery_duration_ms": d}
+    if form == 9:
+        dd = 5 if d is None else d
+        kw = {"fs": 2500.0, "recovery_duration_ms": dd / 2.5}
+    if form == 8:
+        kw["return_peak_channel"] = True
+    return kw
+
+
+def form_ok(d, form):
+    dd = 5 if d is None else d
+    return form != 9 or int(round(dd / 2.5 * 2500.0 / 1000)) == dd
+
+
+def call(arr, d, form=0):
+    """compute_spike_features on a fresh copy of `arr` in the given form (FORMS); d samples offset"""
     import ibldsp.waveforms as wf
+    arg = as_form(arr, form)
+    kw = form_kwargs(d, form)
     with warnings.catch_warnings():
         warnings.simplefilter("ignore")
-        if d is None:
-            return wf.compute_spike_features(arr.copy())
-        return wf.compute_spike_features(arr.copy(), fs=1000, recovery_duration_ms=d)
+        if form == 11:
+            wf.compute_spike_features(arg, **kw)
+        out = wf.compute_spike_features(arg, **kw)
+    return out[0] if form == 8 else out
 
 
-def run_one_batch(arr, d, events):
-    """-> (rows, evs, dobs): rows[i] = the 13 reported values; evs[i] = step events of waveform i"""
-    n = arr.shape[0]
+def synthesized_events(arr, d):
+    """fallback when the four step functions cannot be wrapped: the step records are rebuilt from what the public
+    call returns (the data frame and, with return_peak_channel=True, the real peak trace).  The property layer
+    judges the same observed values; the implementation layer can only be compared as far as they go."""
+    import ibldsp.waveforms as wf
+    kw = form_kwargs(d, 0)
+    with warnings.catch_warnings():
+        warnings.simplefilter("ignore")
+        df, real = wf.compute_spike_features(np.array(arr, dtype=float), return_peak_channel=True, **kw)
+    pkv = df[COLS["pkv"]].to_numpy(dtype=float)
+    real = np.asarray(real, dtype=float).reshape(len(pkv), -1)
+    a = real * np.where(pkv > 0, -1.0, 1.0)[:, None]
+    isg = _ints(-np.sign(pkv))
+    ev = [("FindPeak", [_col(df, COLS[k]) for k in ("ptr", "pk", "pkv")]),
+          ("TipTrough", [_col(df, COLS[k]) for k in ("pk", "pkv", "tr", "trv", "tip", "tipv")] + [isg, _ints(a)]),
+          ("HalfPeak", [_col(df, COLS[k]) for k in ("hpost", "hpre", "hpostv", "hprev")]),
+          ("Recovery", [_col(df, COLS[k]) for k in ("rec", "recv")])]
+    return df, ev
+
+
+def run_one_batch(arr, d, events, form=0):
+    """-> (rows, evs, dobs): rows[i] = the 13 reported values; evs[i] = step events of waveform i.
+    arr: (n, T, C), or (T, C) for the 2-D form"""
+    n = arr.shape[0] if arr.ndim == 3 else 1
     if events:
         with Recorder() as r:
             try:
-                df = call(arr, d)
+                if r.orig:
+                    df = call(arr, d)
+                else:
+                    df, r.ev = synthesized_events(arr, d)
+                    r.d = 5 if d is None else d
             except Exception as e:
                 e._c14_events = r.ev
                 e._c14_d = r.d
@@ -139,9 +232,10 @@ def run_one_batch(arr, d, events):
         evs = [[[name] + [c[i] for c in cols] for name, cols in r.ev] for i in range(n)]
         dobs = r.d
     else:
-        df = call(arr, d)
+        df = call(arr, d, form)
         evs, dobs = None, None
-    cols = {k: _col(df, COLS[k]) for k in FIELDS}
+    back = 2.0 ** 20 if form == 10 else 1.0
+    cols = {k: (_col(df, COLS[k]) if k in IDX else _ints(df[COLS[k]].to_numpy(dtype=float) * back)) for k in FIELDS}
     rows = [[cols[k][i] for k in FIELDS] for i in range(n)]
     return rows, evs, dobs
 
@@ -152,18 +246,28 @@ class Budget:
         self.skipped = 0
 
 
-def robust(mats, d, events, budget):
+def robust(mats, d, events, budget, form=0):
     """features of each waveform of `mats` (same shape), computed in one batch; when the batch raises it is
     bisected until the raising waveforms are isolated.  -> list of dict(row, ev, exc, d) (None = skipped
-    because the attribution budget is exhausted)"""
+    because the attribution budget is exhausted).  form: see FORMS (13 = one 2-D call per waveform)"""
     out = [None] * len(mats)
     arrs = [to_float(m) for m in mats]
+    if form:
+        FORM_COUNT[form] = FORM_COUNT.get(form, 0) + len(mats)
+    if form == 13:
+        for i, a in enumerate(arrs):
+            try:
+                rows, _, _ = run_one_batch(a, d, False, form)
+                out[i] = {"row": rows[0], "ev": None, "exc": "", "d": None}
+            except Exception as e:
+                out[i] = {"row": [], "ev": [], "exc": type(e).__name__, "d": None}
+        return out
 
     def rec(idx):
         if not idx:
             return
         try:
-            rows, evs, dobs = run_one_batch(np.stack([arrs[i] for i in idx]), d, events)
+            rows, evs, dobs = run_one_batch(np.stack([arrs[i] for i in idx]), d, events, form)
             for j, i in enumerate(idx):
                 out[i] = {"row": rows[j], "ev": evs[j] if evs else None, "exc": "", "d": dobs}
         except Exception as e:
@@ -189,8 +293,10 @@ def admissible_py(m):
     return a.shape[0] >= 2 and np.max(np.abs(a[0])) < np.max(np.abs(a))
 
 
-def evaluate(ctx, mats, d, rnd, budget, single_cap):
-    """all real executions for a group of same-shape waveforms -> trace records"""
+def evaluate(ctx, mats, d, rnd, budget, single_cap, nforms=len(FORMS), form_cap=10 ** 6, cap2d=10 ** 6):
+    """all real executions for a group of same-shape waveforms -> trace records.  nforms of the FORMS (all, or that
+    many drawn per group) are applied to at most form_cap (2-D single calls: cap2d) waveforms of the group each;
+    form 12 always takes the whole group (it needs the shape of the base call)"""
     mats = list(mats)
     T, C = len(mats[0]), len(mats[0][0])
     dd = 5 if d is None else d
@@ -208,8 +314,31 @@ def evaluate(ctx, mats, d, rnd, budget, single_cap):
     if adm:
         sel = [mats[i] for i in adm]
         base = robust(sel, d, True, budget)
-        # the same waveforms in other batches: reversed order, split in two unequal parts
         n = len(sel)
+        forms = sorted(FORMS) if nforms >= len(FORMS) else sorted(rnd.sample(sorted(FORMS), nforms))
+        flaws = {i: [] for i in range(n)}
+        fb = Budget(40)         # attribution of raising copies, apart from the budget of the base executions
+        if 12 in forms:
+            # right after the base call: a batch of the same shape whose rows are other waveforms (anything the code
+            # keeps between calls, keyed by shape or not at all, now belongs to another waveform)
+            k = n // 2 + 1 if n > 1 else 0
+            rot = [(i + k) % n for i in range(n)]
+            for i, o in zip(rot, robust([sel[i] for i in rot], d, False, fb, form=12)):
+                if o is not None:
+                    flaws[i].append(["batch", 12, o["row"], o["exc"]])
+        for f in forms:
+            if f == 12 or not form_ok(d, f):
+                continue
+            elig = [i for i in range(n) if base[i] is not None and base[i]["exc"] == ""
+                    and (f not in INT_FORMS or not any(v == NAN for row in sel[i] for v in row))]
+            cap = min(form_cap, cap2d) if f == 13 else form_cap
+            pick = sorted(rnd.sample(elig, cap)) if len(elig) > cap else elig
+            if not pick:
+                continue
+            for i, o in zip(pick, robust([sel[i] for i in pick], d, False, fb, form=f)):
+                if o is not None:
+                    flaws[i].append(["batch", f, o["row"], o["exc"]])
+        # the same waveforms in other batches: reversed order, split in two unequal parts
         cut = max(1, n // 3)
         order = list(range(n))[::-1]
         alt = [None] * n
@@ -233,6 +362,7 @@ def evaluate(ctx, mats, d, rnd, budget, single_cap):
                     laws.append(["perm", [j + 1 for j in perms[i]], pm[i]["row"], pm[i]["exc"]])
                 if alt[i] is not None:
                     laws.append(["batch", 0, alt[i]["row"], alt[i]["exc"]])
+                laws += flaws[i]
             recs.append({"w": m, "d": o["d"] if o["d"] is not None else dd, "exc": o["exc"], "ev": o["ev"],
                          "ret": o["row"], "laws": laws})
     ctx.count(len(recs) * 4)
@@ -382,12 +512,24 @@ def report(ctx, t, v, label):
     small = json.dumps(t["w"]) if T * C <= 40 else f"{T}x{C} waveform"
     if v["prop"]:
         clause = v["prop"].split(":")[0].lower()
+        which = ""
+        if clause == "batch":
+            diff = [(FORMS.get(l[1], "another batch") + (f" raised {l[3]}" if l[3] else f" gave {dict(zip(FIELDS, l[2]))}"))
+                    for l in t["laws"] if l[0] == "batch" and (l[3] or list(l[2]) != list(t["ret"]))]
+            which = "; the same waveform as " + " / ".join(diff[:3]) if diff else ""
         ctx.violation("feat:" + clause, f"compute_spike_features({small}, offset {t['d']}): property-layer clause "
-                      f"{v['prop']} false on the observed values {dict(zip(FIELDS, t['ret'])) if t['ret'] else t['exc']} [{label}]",
+                      f"{v['prop']} false on the observed values {dict(zip(FIELDS, t['ret'])) if t['ret'] else t['exc']}{which} [{label}]",
                       {"kind": "int", "w": t["w"], "d": t["d"], "laws": [l[:2] for l in t["laws"]]})
     elif v["impl"]:
         ctx.spec_drift(f"compute_spike_features({small}, offset {t['d']}): step {v['impl']} is not the step of "
                        f"spec/lib/Features.tla (all property-layer clauses hold) [{label}]")
+
+
+def unbound_note(ctx):
+    if UNBOUND:
+        ctx.spec_drift(f"ibldsp.waveforms no longer has the step function(s) {', '.join(UNBOUND)} that spec/lib/Features.tla "
+                       f"transcribes: the step records were rebuilt from the returned data frame and peak trace "
+                       f"(property layer judged on those; the implementation layer is compared as far as they go)")
 
 
 def _t(ctx, what):
@@ -401,6 +543,7 @@ def run(ctx):
     ctx.level = "model_checking"
     rnd = random.Random(ctx.seed)
     nrnd = np.random.default_rng(ctx.seed)
+    FORM_COUNT.clear()
     # 1. model: implementation layer => property layer, exhaustive boxes (parallel JVMs)
     cfgs = (["Features_quick", "Features_quick2", "Features_quickN"] if ctx.quick else
             ["Features_thorough1", "Features_thorough2", "Features_thorough3", "Features_thoroughN", "Features_quick2"])
@@ -436,13 +579,16 @@ def run(ctx):
             raise tlc.TLCError(f"export {q} failed:\n{r.out[-2000:]}")
         exported += json.loads(out.read_text())
     budget = Budget(400)
+    # forms of the call: every form on (a sample of) every box group; a few forms drawn per realistic shape
+    fbox = {"form_cap": 100 if ctx.quick else 2500, "cap2d": 12 if ctx.quick else 150}
+    freal = {"nforms": 2 if ctx.quick else 5}
     groups = {}
     for k, c in enumerate(exported):
         for d in range(len(c["exp"])):
             groups.setdefault((len(c["w"]), len(c["w"][0]), d), []).append(k)
     expected = {}
     for (T, C, d), ks in sorted(groups.items()):
-        rs = evaluate(ctx, [exported[k]["w"] for k in ks], d, rnd, budget, 60 if ctx.quick else 300)
+        rs = evaluate(ctx, [exported[k]["w"] for k in ks], d, rnd, budget, 60 if ctx.quick else 300, **fbox)
         for k in ks:
             expected[json.dumps([exported[k]["w"], d])] = exported[k]["exp"][d]
         recs += rs
@@ -460,7 +606,7 @@ def run(ctx):
             pick = set(rnd.sample(range(total), min(cap, total)))
             ws = [w for i, w in enumerate(allw) if i in pick]
         for d in ds:
-            recs += evaluate(ctx, ws, d, rnd, budget, 40 if ctx.quick else 200)
+            recs += evaluate(ctx, ws, d, rnd, budget, 40 if ctx.quick else 200, **fbox)
     _t(ctx, f"harness boxes ({len(recs) - nexp})")
     # realistic integer-count batches through the default arguments (5 samples offset)
     nreal = 500 if ctx.quick else 5000
@@ -470,12 +616,17 @@ def run(ctx):
         byshape.setdefault(w.shape, []).append(to_counts(w))
     real_recs = []
     for shape, ms in byshape.items():
-        real_recs += evaluate(ctx, ms, None, rnd, budget, 10 ** 6)
+        # mostly the default arguments (5 samples); otherwise another offset that fits the window
+        dreal = None if rnd.random() < 0.6 else rnd.choice([x for x in (0, 1, 2, 8, 15, 30, shape[0] - 2, shape[0] - 1)
+                                                            if x < shape[0]])
+        real_recs += evaluate(ctx, ms, dreal, rnd, budget, 10 ** 6, **freal)
     ctx.cov["realistic_int_waveforms"] = len(real_recs)
+    ctx.cov["copies_in_other_forms"] = {FORMS[f]: FORM_COUNT.get(f, 0) for f in sorted(FORMS)}
     for t in recs + real_recs:
         ctx.count(0, key=hash(wkey(t)) if t["exc"] == "" and t["laws"] else None)
     if budget.skipped:
         ctx.log(f"[C14] {budget.skipped} waveforms of raising batches not attributed (budget); verdict rests on the others")
+    unbound_note(ctx)
     _t(ctx, f"realistic executions ({len(real_recs)})")
     rnd.shuffle(recs)
     verdicts = validate(ctx, recs, "boxes")
@@ -491,7 +642,7 @@ def run(ctx):
     for c, inv, st in model_cex:
         replay_model_cex(ctx, c, inv, st)
     # 4. projection: laws on float-valued batches, all columns
-    float_laws(ctx, real, rnd)
+    float_laws(ctx, real, rnd, full=not ctx.quick)
     for t in (recs[:2] + real_recs[:1]):
         ctx.sample({"w": t["w"] if len(t["w"]) * len(t["w"][0]) <= 40 else f"{len(t['w'])}x{len(t['w'][0])}",
                     "offset": t["d"], "reported": dict(zip(FIELDS, t["ret"])), "exc": t["exc"],
@@ -528,7 +679,9 @@ def compare_expected(recs, expected):
     return mism
 
 
-def float_laws(ctx, real, rnd):
+def float_laws(ctx, real, rnd, full=True):
+    """full: every extra factor / element type on every shape; otherwise one extra factor per shape and float32 on
+    a third of the shapes"""
     byshape = {}
     for w in real:
         a = np.nan_to_num(w)
@@ -537,40 +690,54 @@ def float_laws(ctx, real, rnd):
     n = 0
     valcols = [c for c in COLS.values() if c.endswith("_val")] + ["depolarisation_slope", "repolarisation_slope", "recovery_slope"]
     for shape, ws in byshape.items():
-        arr = np.stack(ws)
-        try:
-            base = call(arr, None)
-        except Exception:
-            continue        # an integer-count twin of this batch is judged by the trace spec
-        n += len(ws)
-
-        def cmp(df, what, scale_c=1.0, ptr_map=None):
-            for col in base.columns:
-                a, b = base[col].to_numpy(dtype=float), df[col].to_numpy(dtype=float)
-                if col == "peak_trace_idx" and ptr_map is not None:
-                    a = np.array([ptr_map[i][int(v)] for i, v in enumerate(a)], dtype=float)
-                if col in valcols:
-                    a = a * scale_c
-                ok = np.isclose(a, b, rtol=1e-9, atol=0.0, equal_nan=True) | ((a == b))
-                if not np.all(ok):
-                    i = int(np.where(~ok)[0][0])
-                    ctx.violation("feat:" + what + "-float", f"{what} law (projection): column {col} of waveform {i} of a "
-                                  f"{shape} batch is {b[i]!r}, required {a[i]!r}",
-                                  {"kind": "float", "law": what, "w": np.where(np.isnan(ws[i]), None, ws[i]).tolist()})
-                    return
-        for c in (0.5, 2.0, 4.0):
-            cmp(call(arr * c, None), "scale", scale_c=c)
-        order = list(range(len(ws)))[::-1]
-        df = call(arr[order], None)
-        cmp(df.iloc[np.argsort(order)].reset_index(drop=True), "batch")
+        arr64 = np.stack(ws)
         C = shape[1]
-        if C > 1:
-            uniq = [np.sum(np.max(np.abs(np.nan_to_num(w)), axis=0) == np.max(np.abs(np.nan_to_num(w)))) == 1 for w in ws]
-            if all(uniq):
-                perms = [rnd.sample(range(C), C) for _ in ws]
-                parr = np.stack([w[:, p] for w, p in zip(ws, perms)])
-                inv = [{old: new for new, old in enumerate(p)} for p in perms]
-                cmp(call(parr, None), "permutation", ptr_map=inv)
+        nz = np.abs(arr64[np.nan_to_num(arr64) != 0])
+        # factors that are exact in binary floating point; the far ones (volts instead of counts, and back) only when
+        # no sample is so small that the product would lose bits
+        far = [c for c in (2.0 ** -20, 2.0 ** 20) if nz.size and nz.min() > 1e-200]
+        if not full and far:
+            far = [rnd.choice(far)]
+        kinds = [(np.float64, [0.5, 2.0, 4.0] + far, True)]
+        if full or rnd.random() < 0.34:
+            kinds.append((np.float32, [2.0], False))
+        for dtype, factors, with_perm in kinds:
+            arr = arr64.astype(dtype)
+            form = 0 if dtype is np.float64 else 1          # call() hands the batch over as float64 / float32
+            try:
+                base = call(arr, None, form)
+            except Exception:
+                continue        # an integer-count twin of this batch is judged by the trace spec
+            n += len(ws)
+            tag = "" if dtype is np.float64 else f" ({np.dtype(dtype).name})"
+
+            def cmp(df, what, scale_c=1.0, ptr_map=None):
+                for col in base.columns:
+                    a, b = base[col].to_numpy(dtype=float), df[col].to_numpy(dtype=float)
+                    if col == "peak_trace_idx" and ptr_map is not None:
+                        a = np.array([ptr_map[i][int(v)] for i, v in enumerate(a)], dtype=float)
+                    if col in valcols:
+                        a = a * scale_c
+                    ok = np.isclose(a, b, rtol=1e-9 if dtype is np.float64 else 1e-5, atol=0.0, equal_nan=True) | ((a == b))
+                    if not np.all(ok):
+                        i = int(np.where(~ok)[0][0])
+                        ctx.violation("feat:" + what + "-float", f"{what} law (projection){tag}: column {col} of waveform {i} of a "
+                                      f"{shape} batch is {b[i]!r}, required {a[i]!r}"
+                                      + (f" (factor {scale_c!r})" if what == "scale" else ""),
+                                      {"kind": "float", "law": what, "w": np.where(np.isnan(ws[i]), None, ws[i]).tolist()})
+                        return
+            for c in factors:
+                cmp(call(arr * dtype(c), None, form), "scale", scale_c=c)
+            order = list(range(len(ws)))[::-1]
+            df = call(arr[order], None, form)
+            cmp(df.iloc[np.argsort(order)].reset_index(drop=True), "batch")
+            if C > 1 and with_perm:
+                uniq = [np.sum(np.max(np.abs(np.nan_to_num(w)), axis=0) == np.max(np.abs(np.nan_to_num(w)))) == 1 for w in ws]
+                if all(uniq):
+                    perms = [rnd.sample(range(C), C) for _ in ws]
+                    parr = np.stack([w[:, p] for w, p in zip(ws, perms)])
+                    inv = [{old: new for new, old in enumerate(p)} for p in perms]
+                    cmp(call(parr, None), "permutation", ptr_map=inv)
     ctx.count(n * 6)
     ctx.cov["float_law_waveforms"] = n
 
@@ -581,16 +748,18 @@ def float_laws(ctx, real, rnd):
 
 def selftest(ctx, recs, bad, expected):
     cands = [t for i, t in enumerate(recs) if i not in bad and t["exc"] == "" and len(t["ev"]) == 4 and admissible_py(t["w"])
-             and t["d"] < len(t["w"]) and any(l[0] == "scale" for l in t["laws"]) and t["ret"][FIELDS.index("rec")] >= 1][:60]
+             and t["d"] < len(t["w"]) and any(l[0] == "scale" for l in t["laws"]) and any(l[0] == "batch" for l in t["laws"])
+             and t["ret"][FIELDS.index("rec")] >= 1][:60]
     if len(cands) < 14:
         if ctx.violations or ctx.drift:
             ctx.log("[C14] binding self-test skipped: too few accepted executions on this tree (violations / drift reported above)")
             return
         raise tlc.TLCError("selftest: not enough accepted executions")
     mut, want = [], []
-    for j, t0 in enumerate(cands[:28]):
+    NK = 8
+    for j, t0 in enumerate(cands[:4 * NK]):
         t = copy.deepcopy(t0)
-        kind = j % 7
+        kind = j % NK
         if kind == 0:
             t["ev"][1][5] = t["ev"][1][1]              # tip := peak index  -> Order
             want.append("prop")
@@ -612,10 +781,19 @@ def selftest(ctx, recs, bad, expected):
         elif kind == 5:
             t["ev"][1][2] += 1                          # peak value not the trace's value -> Peak
             want.append("prop")
-        else:
+        elif kind == 6:
             t["exc"] = "IndexError"                     # the call raised on an admissible input -> Succeeds
             t["ev"] = t["ev"][:3]
             t["ret"], t["laws"] = [], []
+            want.append("prop")
+        else:
+            # the copy handed over in another form raised / came back with another half-peak point -> Batch
+            law = next((l for l in t["laws"] if l[0] == "batch" and l[1] != 0), None) or next(l for l in t["laws"] if l[0] == "batch")
+            if j % (2 * NK) < NK:
+                law[2], law[3] = [], "ValueError"
+            else:
+                law[2] = list(law[2])
+                law[2][FIELDS.index("hpostv")] += 1
             want.append("prop")
         mut.append(t)
     keep = ctx.cov["traces_validated_against_impl"]
@@ -625,7 +803,7 @@ def selftest(ctx, recs, bad, expected):
     for i, wnt in enumerate(want):
         x = got.get(i)
         if x is None or not x[wnt]:
-            raise tlc.TLCError(f"binding self-test: corrupted record {i} (kind {i % 7}) was not flagged as {wnt}: {x}")
+            raise tlc.TLCError(f"binding self-test: corrupted record {i} (kind {i % NK}) was not flagged as {wnt}: {x}")
     ctx.cov["selftest_corrupted_records_flagged"] = len(mut)
     # spec -> code comparator: one perturbed expectation must be noticed
     t = next((t for t in recs if wkey(t) in expected and t["exc"] == "" and expected[wkey(t)]["exc"] == ""), None)
@@ -676,4 +854,5 @@ def replay(ctx, sc):
             p = [j - 1 for j in l[1]]
             o = robust([[[row[j] for j in p] for row in sc["w"]]], sc["d"], False, Budget(10))[0]
             recs[0]["laws"] = [x for x in recs[0]["laws"] if x[0] != "perm"] + [["perm", l[1], o["row"], o["exc"]]]
+    unbound_note(ctx)
     validate(ctx, recs, "replay", jvms=1)
